@@ -21,6 +21,7 @@ struct GRcpt {
   bool cmd_after_mark = false;
   int64_t last_cmd_t = 0;
   std::string fail_text;
+  int note_seq = 0;
 };
 
 struct GMsg {
@@ -44,6 +45,7 @@ struct GMsg {
   std::string info_sender;
   bool pre_planted = false;
   bool mess_gone = false;
+  int bounces_sent = 0;
 };
 
 struct SpawnCmd { int chan; int delnum; std::string messid, sender, recip; int64_t t; uint64_t num; };
@@ -114,6 +116,9 @@ struct WorldQ : World {
   void finish_c01(); void finish_c03();
   bool enabled(const std::string &oracle) const;
   std::set<std::string> oracles_off, oracles_on;
+  // C14 reference configuration
+  std::map<std::string, std::string> vdoms_ref; std::string bfrom = "MAILER-DAEMON", bhost = "sim.example", dbto = "postmaster", dbhost = "sim.example"; int note_counter = 0;
+  std::string strip_prepend(const std::string &recip) const; void check_bounce(GMsg *b); void finish_c14();
 };
 
 // bit positions in pattern
